@@ -93,8 +93,13 @@ def prove_guards(report: Report):
 
 
 # ---- whole router, bounded ------------------------------------------------------------------------------------
+# directed registrations for the first method / the bare actions (the generator's uniform choice reaches these with probability 5^-5)
+DIRECTED = [None, "all:3", "all:1", "all:2", "default", "bare-all:3", "bare-all:1", "bare-all:2"] + [f"single:{oc}:{c}" for oc in range(5) for c in (1, 2, 3)]
+
+
 def router_case(job):
-    seed, version = job
+    seed, version = job[0], job[1]
+    directed = job[2] if len(job) > 2 else None
     from vf.core import use_repo
     use_repo()
     import pyteal as pt
@@ -102,13 +107,15 @@ def router_case(job):
     from spec import avm
     import hashlib
     r = random.Random(seed)
-    out = {"seed": seed, "version": version, "problems": [], "ran": 0}
+    out = {"seed": seed, "version": version, "directed": directed, "problems": [], "ran": 0}
     try:
         # bare actions
         bare_cfg = {}
         kwargs = {}
         for name in OCS:
             c = r.choice([0, 0, 1, 2, 3])
+            if directed and directed.startswith("bare-all:"):
+                c = int(directed.split(":")[1])
             bare_cfg[name] = c
             if c:
                 tag = f"bare:{name}".encode()
@@ -118,15 +125,24 @@ def router_case(job):
                  "logreject": pt.Reject()}[clear_kind]
         router = pt.Router("r", pt.BareCallActions(**kwargs), clear_state=clear) if clear is not None else pt.Router("r", pt.BareCallActions(**kwargs))
         methods = []
-        for mi in range(r.randrange(0, 4)):
+        for mi in range(r.randrange(0, 4) if not directed or directed.startswith("bare") else r.randrange(1, 4)):
             cfg = {name: r.choice([0, 0, 1, 2, 3]) for name in OCS}
             if all(v == 0 for v in cfg.values()):
                 cfg["no_op"] = r.choice([1, 2, 3])
+            if mi == 0 and directed and directed.startswith("all:"):
+                cfg = {name: int(directed.split(":")[1]) for name in OCS}
+            if mi == 0 and directed and directed.startswith("single:"):
+                _, k, c = directed.split(":")
+                cfg = {name: (int(c) if i == int(k) else 0) for i, name in enumerate(OCS)}
+            if mi == 0 and directed == "default":
+                cfg = {name: (1 if name == "no_op" else 0) for name in OCS}
             name = f"m{mi}"
             ns = {"pt": pt, "abi": abi}
             exec(compile(f"def {name}():\n    return pt.Log(pt.Bytes('method:{name}'))\n", "<m>", "exec", dont_inherit=True), ns)
             route = r.choice(["handler", "decorator"])
-            if route == "handler":
+            if mi == 0 and directed == "default":
+                router.method(ns[name]) if r.random() < 0.5 else router.add_method_handler(pt.ABIReturnSubroutine(ns[name]))
+            elif route == "handler":
                 router.add_method_handler(pt.ABIReturnSubroutine(ns[name]), method_config=pt.MethodConfig(**{k: pt.CallConfig(v) for k, v in cfg.items()}))
             else:
                 # the decorator route: only the OnCompletion keywords that are allowed are given; the others take the decorator's defaults (never)
@@ -190,20 +206,21 @@ def run(report: Report, tier, seed):
     report.assume("handler bodies are opaque: they are observed through a unique log line",
                   "approval_construction / to_cond_node / program_construction are covered by the whole-router bounded stand-in, not yet by their own contracts")
     bad = prove_guards(report)
-    jobs = [(seed * 7919 + i, [6, 7, 8, 9, 10][i % 5]) for i in range(40 if tier == "quick" else 600)]
+    jobs = [(seed * 7919 + i, [6, 7, 8, 9, 10][i % 5], None) for i in range(40 if tier == "quick" else 600)]
+    jobs += [(seed * 7919 + 1000 + i, [6, 8, 10, 7, 9][(i + k) % 5], d) for k in range(1 if tier == "quick" else 5) for i, d in enumerate(DIRECTED) if d]
     with ProcessPoolExecutor(max_workers=16) as ex:
         res = list(ex.map(router_case, jobs, chunksize=2))
     rb = [r for r in res if r["problems"]]
     report.bounded.append(Bounded(function="Router.compile_program (approval + clear-state) on the spec AVM",
                                   contract="handler H, and only H, runs exactly when the call matches H's registration; every other call is rejected; clear-state runs the given action or rejects; contract lists exactly the registered methods",
-                                  bound=f"{len(jobs)} generated routers (seed {seed}; 0..3 methods, bare actions per OnCompletion, arbitrary CallConfigs) x all calls (bare / each selector / unknown / short selector) x OnCompletion 0..5 x app id zero / non-zero, versions 6..10",
+                                  bound=f"{len(jobs)} generated routers (seed {seed}; 0..3 methods, bare actions per OnCompletion, arbitrary CallConfigs; plus directed registrations: uniform ALL/CALL/CREATE, the default MethodConfig, each single OnCompletion x CallConfig, uniform bare actions) x all calls (bare / each selector / unknown / short selector) x OnCompletion 0..5 x app id zero / non-zero, versions 6..10",
                                   cases=sum(r["ran"] for r in res), distinct_nontrivial=len(jobs), failures=len(rb)))
     report.extra["explanation"] = "E x P: guards of all 4 + 1024 configurations proved for all uint64 inputs; B: whole routers on the spec AVM"
-    report.settle_refuted(lambda fn, obs: ({"input": {"seed": rb[0]["seed"], "version": rb[0]["version"]}, "problems": rb[0]["problems"][:3]} if rb else None))
+    report.settle_refuted(lambda fn, obs: ({"input": {"seed": rb[0]["seed"], "version": rb[0]["version"], "directed": rb[0].get("directed")}, "problems": rb[0]["problems"][:3]} if rb else None))
     if rb and not any(o.status == "refuted" for o in report.obs):
         b = rb[0]
         report.violation(Violation(key=f"router:{b['seed']}:{b['version']}", what=f"router dispatch differs from registration: {b['problems'][0]}"[:400],
-                                   replay={"input": {"seed": b["seed"], "version": b["version"]}, "problems": b["problems"][:3], "approval": b.get("approval")}, confirmed_native=True))
+                                   replay={"input": {"seed": b["seed"], "version": b["version"], "directed": b.get("directed")}, "problems": b["problems"][:3], "approval": b.get("approval")}, confirmed_native=True))
 
 
 def replay(data):
@@ -213,6 +230,6 @@ def replay(data):
     if not inp:
         print("no concrete input;", [x["id"] for x in r.get("refuted", [])])
         return 1
-    out = router_case((inp["seed"], inp["version"]))
+    out = router_case((inp["seed"], inp["version"], inp.get("directed")))
     print(out["problems"][:3])
     return 1 if out["problems"] else 0
